@@ -59,6 +59,7 @@ def check(chk, fx):
     cexrules.buf(chk, fx)             # the three buffer classes: begin / end / get_view mean the same slice
     from .. import primrules
     primrules.prims(chk, fx, "CVEC2", "BUFIT", "TVAL", "UTIL", "GAPI")
+    primrules.prims(chk, fx, "GAPI2")
     lr.all_table_rules(chk, fx)
     tix.report(chk, fx)
     idxrule.report(chk, fx, lambda q: q.startswith(P) or q.startswith("ctpg::detail::value_reductors"),
